@@ -121,6 +121,87 @@ def registration(ctx: Ctx, pid: str):
                   required=f"the manager schedules exactly the bodies registered under {key}")
 
 
+def graph_ccs(ctx: Ctx, pid: str):
+    """The schedulers are generated per connected component of the conflict graph: `_graph_ccs` has to return a partition of
+    all vertices into sets closed under adjacency (a vertex left out is a transaction that is never scheduled; two adjacent
+    vertices in different sets are scheduled independently although they conflict)."""
+    from ..stage import Jump
+
+    HELPERS = "transactron/utils/transactron_helpers.py"
+    rule = f"{pid}.connected-components"
+    fn = _fn(ctx, HELPERS, "_graph_ccs", rule)
+    gr = fn.param(0)
+    ok = True
+    why = []
+    seen_visit = seen_skip = False
+    for ex in fn.exs:
+        skip = [(t, v) for t, v in ex.config if pmatch("Q_w in Q_v", t) is not None]
+        if len(skip) != 1:
+            ok = False
+            why.append("no single visited-test")
+            continue
+        (t, v) = skip[0]
+        m = pmatch("Q_w in Q_v", t)
+        w, visited = m["w"], m["v"]
+        wd = ex.vardef(w) or w
+        mq = pmatch("Q_q.pop()", wd) or pmatch("Q_q.pop(0)", wd) or pmatch("Q_q.popleft()", wd)
+        effs = list(ex.of(Effect))
+        marks = [e for e in effs if e.call == ("call", ("a", visited, "add"), (w,), ())]
+        ext = [e for e in effs if mq is not None and e.call == ("call", ("a", mq["q"], "extend"), (("i", gr, w),), ())]
+        adds = [e for e in effs if pmatch("Q_c.add(Q_x)", e.call) is not None and pmatch("Q_c.add(Q_x)", e.call)["x"] == w and e not in marks]
+        outs = [e for e in effs if pmatch("Q_r.append(Q_c)", e.call) is not None]
+        if v:
+            seen_skip = True
+            if marks or ext or adds:
+                ok = False
+                why.append("a visited vertex is processed again")
+            if not any(isinstance(f, Jump) and f.kind == "continue" for f in ex.facts):
+                ok = False
+                why.append("visited vertex not skipped")
+        else:
+            seen_visit = True
+            if not (len(marks) == 1 and len(ext) == 1 and len(adds) == 1):
+                ok = False
+                why.append(f"an unvisited vertex is marked {len(marks)}x, joins a component {len(adds)}x, queues its neighbours {len(ext)}x")
+            elif outs:
+                comp = pmatch("Q_c.add(Q_x)", adds[0].call)["c"]
+                if pmatch("Q_r.append(Q_c)", outs[0].call)["c"] != comp:
+                    ok = False
+                    why.append("the set that is returned is not the set the vertices were added to")
+            # the work list starts from the vertex the outer loop is at, and the outer loop visits every key
+            if mq is not None:
+                q = mq["q"]
+                lp = loops(marks[0]) if marks else []
+                start = lp[0][0][0] if lp else None
+                its_ok = bool(lp) and lp[0][1] in (gr, ("call", ("a", gr, "keys"), (), ()))
+                if not (its_ok and q in (("list", start),)):
+                    ok = False
+                    why.append(f"work list {tstr(q)} over {tstr(lp[0][1]) if lp else '?'}")
+            else:
+                ok = False
+                why.append("vertex not taken from a work list")
+        # finished component: appended iff non-empty, then a fresh set is started
+        if any(v2 and t2[0] == "loopvar" for t2, v2 in ex.config) and not outs:
+            ok = False
+            why.append("a finished non-empty component is not collected")
+        for e in outs:
+            c = pmatch("Q_r.append(Q_c)", e.call)["c"]
+            g = py_guard(e)
+            if not (equivalent(g, A(c)) is None or g is True):
+                ok = False
+                why.append(f"component appended if {fstr(g)}")
+            steps = [s for k, s in ex.loopdefs.items() if k[0] != "while"]
+            if not any(s[1] is not None and s[1][0] == "obj" and s[1] != s[0] and ex.obj(s[1]) is not None and tstr(ex.obj(s[1]).ctor) in ("set()", "set[T]()") for s in steps):
+                ok = False
+                why.append("no fresh set after a finished component")
+        rets = [r for r in ex.of(Return) if r.callid is None]
+        if outs and not (rets and rets[0].value == pmatch("Q_r.append(Q_c)", outs[0].call)["r"]):
+            ok = False
+            why.append("returns something else than the collected components")
+    ctx.check(ok and seen_visit and seen_skip, rule, fn.site, "_graph_ccs", found="; ".join(dict.fromkeys(why)) or "work-list closure over gr[w] from every key; visited vertices skipped; components appended when non-empty, fresh set afterwards",
+              required="every vertex is visited once, joins the current component and queues all its neighbours; a finished non-empty component is collected and a fresh one started")
+
+
 def _levels_opened(ctx: Ctx, rel: str, qual: str, rule: str) -> int:
     """Control levels between entering the body context and the yield of Transaction.body / Method.body."""
     fn = _fn(ctx, rel, qual, rule)
